@@ -217,6 +217,9 @@ def enumerate_ops(geo, rng, subset_limit=None, light=False):
         a = fresh(0)
         b = fresh(int(a.strip()[1:]) + 1)
         ops.append(['rename_columns', cols[:2], [a, b]])
+        # a bulk rename whose mapping leaves a name unchanged, and a rename onto the same name (both no-ops for that column)
+        ops.append(['rename_columns', cols[:2], [cols[0], a]])
+    ops.append(['rename_column', cols[-1], cols[-1]])
     lays = [l.name for l in geo.layerlist[1:]]
     for s in subsets(lays, subset_limit, rng):
         for f in ((2, 3, 4) if not light else (2,)):
